@@ -350,7 +350,7 @@ class YP(object):
             name = term._name
             args = term._args
         elif isinstance(term, Atom):
-            name = term
+            name = term._name
             args = []
 
         remaining_clauses = self._find_predicates(name, len(args))[:]
@@ -372,7 +372,7 @@ class YP(object):
             name = term._name
             args = term._args
         elif isinstance(term, Atom):
-            name = term
+            name = term._name
             args = []
         remaining_clauses = []
         for clause in self._find_predicates(name, len(args)):
